@@ -31,13 +31,15 @@ Fixpoint pool_after (y : nat) : res Z :=
   | S y' => do p <- pool_after y'; year_step p
   end.
 
-(* mintBatchSize(batch uint64) *)
-Definition mint_batch_size (batch : Z) : res Z :=
-  let years := batch / year_days in
+(* mintBatchSize(batch uint64): the amount only depends on years = batch/365 *)
+Definition batch_size_of_year (years : Z) : res Z :=
   if 10000 <? years then Panic
   else do pool <- pool_after (Z.to_nat years);
        do year <- product year_percent pool;
        i_div year year_days.
+
+Definition mint_batch_size (batch : Z) : res Z :=
+  batch_size_of_year (batch / year_days).
 
 (* the loop of mintMultiBatchesSize: amount = amount.Add(mintBatchSize(i))
    for the [n] batches starting at [i] *)
